@@ -134,4 +134,18 @@ def alInsert {κ ν : Type} [DecidableEq κ] (m : List (κ × ν)) (k : κ) (v :
 def alUpdate {κ ν : Type} [DecidableEq κ] (m : List (κ × ν)) (k : κ) (dflt : ν) (f : ν → ν) : List (κ × ν) :=
   if m.any (fun p => p.1 = k) then m.map (fun p => if p.1 = k then (k, f p.2) else p) else m ++ [(k, f dflt)]
 
+/-! ### depth-first marking (shared by the graph-walking rules) -/
+
+structure Reach (α : Type) where
+  visited : List α := []      -- in visiting (pre-)order
+  stuck : Bool := false
+
+/-- visit `x` unless already visited, then every successor of `x`, threading the visited set.
+    Fuel bounds the recursion depth. -/
+def dfs {α : Type} [DecidableEq α] (succ : α → List α) : Nat → α → Reach α → Reach α
+  | 0, _, r => { r with stuck := true }
+  | n + 1, x, r =>
+    if r.visited.contains x then r
+    else (succ x).foldl (fun r y => dfs succ n y r) { r with visited := r.visited ++ [x] }
+
 end Gql
